@@ -21,11 +21,13 @@ from pathlib import Path
 from typing import Any, Callable, Iterable
 
 VERIF = Path(__file__).resolve().parent.parent
-LEAN_DIR = VERIF / "lean"
+# development / parallel regression only: another Lean tree, another repo tree, another output directory
+LEAN_DIR = Path(os.environ.get("VERIF_LEAN_DIR", str(VERIF / "lean")))
 REPO = Path(os.environ.get("PYSERSIC_REPO", "/repo"))
 DRIVER = LEAN_DIR / ".lake" / "build" / "bin" / "driver"
-EVIDENCE_DIR = VERIF / "evidence"
-REPLAY_DIR = VERIF / "replays"
+OUT_DIR = Path(os.environ.get("VERIF_OUT_DIR", str(VERIF)))
+EVIDENCE_DIR = OUT_DIR / "evidence"
+REPLAY_DIR = OUT_DIR / "replays"
 KNOWN_FINDINGS = VERIF / "known_findings.json"
 ALLOWED_AXIOMS = {"propext", "Classical.choice", "Quot.sound"}
 FORBIDDEN_SRC = re.compile(
@@ -217,7 +219,7 @@ def run_child(mod: str, func: str, payload, x64: bool = False, timeout: int = 36
     import pickle
     env = dict(os.environ)
     env["JAX_ENABLE_X64"] = "1" if x64 else "0"
-    env["PYTHONPATH"] = str(VERIF) + os.pathsep + env.get("PYTHONPATH", "")
+    env["PYTHONPATH"] = str(VERIF) + os.pathsep + (str(REPO) + os.pathsep if str(REPO) != "/repo" else "") + env.get("PYTHONPATH", "")
     env.setdefault("JAX_PLATFORMS", "cpu")
     env["PYTHONWARNINGS"] = "ignore"
     p = subprocess.run([sys.executable, "-m", "harness.child"], input=pickle.dumps((mod, func, payload)),
@@ -267,7 +269,7 @@ def load_known_findings(prop: str) -> tuple[dict[str, dict], list[dict]]:
 
 
 def write_replay(prop: str, seed: int, payload: dict) -> Path:
-    REPLAY_DIR.mkdir(exist_ok=True)
+    REPLAY_DIR.mkdir(parents=True, exist_ok=True)
     h = hashlib.sha256(json.dumps(payload, sort_keys=True, default=str).encode()).hexdigest()[:10]
     path = REPLAY_DIR / f"{prop}-{h}.json"
     path.write_text(json.dumps(payload, indent=1, sort_keys=True, default=str))
@@ -280,7 +282,7 @@ def file_sha(path: Path) -> str:
 
 def write_evidence(prop: str, tier: str, seed: int, coverage: dict, wall_s: float,
                    violations: int, assumptions: list[str]) -> None:
-    EVIDENCE_DIR.mkdir(exist_ok=True)
+    EVIDENCE_DIR.mkdir(parents=True, exist_ok=True)
     ev = {
         "property_id": prop,
         "tier": tier,
